@@ -203,10 +203,12 @@ func c20Parent(c *core.Ctx, r *core.Reporter) {
 			continue
 		}
 		args := sites[0].Common().Args
-		if sp.arg >= len(args) {
-			r.Unknown(key, sites[0].Pos(), "argument index out of range (signature changed)")
+		argIdx, found := c.ArgIndex(callee, sp.arg) // follows the parameter when the signature was reordered
+		if !found || argIdx >= len(args) {
+			r.Unknown(key, sites[0].Pos(), "%s no longer has the parameter this obligation is about (signature changed): re-confirm the instance", sp.callee)
 			continue
 		}
+		sp.arg = argIdx
 		allowed := sp.allowed
 		if nonNilGuarded(sites[0], args[sp.arg]) {
 			allowed = append(append([]string{}, allowed...), "nil") // `var x *T; ...; if x != nil { f(x) }`
